@@ -319,6 +319,8 @@ def gen_packet(p):
         o.append("    #[verifier::external_body] pub fn packet<'p>(&'p self) -> (r: &'p [u8]) ensures r@ == self@ { unimplemented!() }")
         if ps:
             o.append("    #[verifier::external_body] pub fn payload<'p>(&'p self) -> (r: &'p [u8]) requires self.wf() ensures r@ == %s_payload(self@) { unimplemented!() }" % pre)
+        if pre == 'ip4':
+            o.append("    #[verifier::external_body] pub fn get_options_raw<'p>(&'p self) -> (r: &'p [u8]) requires self.wf() ensures r@ == ip4_options_raw(self@) { unimplemented!() }")
         for fname, kind in p['fields']:
             if (pre, fname) in SPEC_ONLY: continue
             ty = ty_of(kind)
@@ -681,6 +683,11 @@ def main():
 EXTRA = {
  'ipv4': r'''
 pub open spec fn ip4_options_length(s: Seq<u8>) -> int { if ip4_header_length(s) as int * 4 >= 20 { ip4_header_length(s) as int * 4 - 20 } else { 0 } }
+/// the raw option bytes: from offset 20 to the end of the header (IHL), clipped to the buffer
+pub open spec fn ip4_options_raw(s: Seq<u8>) -> Seq<u8> {
+    let end = if 20 + ip4_options_length(s) < s.len() { 20 + ip4_options_length(s) } else { s.len() as int };
+    s.subrange(20, end)
+}
 pub open spec fn ip4_payload_length(s: Seq<u8>) -> int { if ip4_total_length(s) as int >= ip4_header_length(s) as int * 4 { ip4_total_length(s) as int - ip4_header_length(s) as int * 4 } else { 0 } }
 pub open spec fn ip4_hdr_for_ck(s: Seq<u8>) -> Seq<u8> {
     let hl = ip4_header_length(s) as int * 4;
